@@ -81,8 +81,14 @@ def iter_state(ex, st, A, I, B, N, J):
     return st.new_cell({0: A, 1: I, 2: B})
 
 
+def nd_T(ex):
+    """needs_drop::<T>() if the code under analysis asks for it (then symbolic), else true: an element without drop glue that is never
+    dropped is not a leak, so the element-leak obligations are stated for element types that need dropping"""
+    return ex.needs_drop.get('T', z3.BoolVal(True))
+
+
 def end_no_leak(ex, st, A, N, J, where='end of scenario'):
-    ex.require(st, z3.Implies(ULT(J, N), z3.Or(st.status[A] == DROPPED, st.status[A] == EXTERN, st.status[A] == STORED)),
+    ex.require(st, z3.Implies(z3.And(ULT(J, N), nd_T(ex)), z3.Or(st.status[A] == DROPPED, st.status[A] == EXTERN, st.status[A] == STORED)),
                'element neither dropped nor handed to the caller when everything is gone (leak)', where)
 
 
@@ -401,7 +407,7 @@ def iter_clone_from(fns, src, nmax, name=None):
             if kind == 'ret' and k3 == 'ret':
                 for arr, stt in s3.status.items():
                     if arr is not S and arr is not ex.V:
-                        ex.require(s3, z3.Implies(ULT(J, N), stt != LIVE), 'an element of the receiver is still alive when everything is gone (leak)', 'end of scenario')
+                        ex.require(s3, z3.Implies(z3.And(ULT(J, N), nd_T(ex)), stt != LIVE), 'an element of the receiver is still alive when everything is gone (leak)', 'end of scenario')
                 ex.require(s3, ex.stat(s3, ex.V) != HELD, 'a clone was lost (neither stored nor dropped)', 'end of scenario')
     return finish(res, ex, t0, paths, unw)
 
@@ -470,7 +476,7 @@ def guard_drop(fns, src, nmax, which='ArrayConsumer', name=None):
         paths += 1
         unw += kind == 'unwind'
         if kind == 'ret':
-            ex.require(s2, z3.Implies(ULT(J, N), s2.status[A] != LIVE), 'guard left an element it owns alive (leak)', 'end')
+            ex.require(s2, z3.Implies(z3.And(ULT(J, N), nd_T(ex)), s2.status[A] != LIVE), 'guard left an element it owns alive (leak)', 'end')
     return finish(res, ex, t0, paths, unw)
 
 
@@ -777,7 +783,7 @@ def remove_oob(fns, src, nmax, which='remove', name=None):
         unw += kind == 'unwind'
         ex.require(s2, z3.BoolVal(kind == 'unwind'), '%s(idx >= N) returned instead of panicking' % which, 'end')
         if kind == 'unwind':
-            ex.require(s2, z3.Implies(ULT(J, N), s2.status[A] == DROPPED), 'the receiver\'s elements are not dropped exactly once on the out-of-bounds panic path (leak)', 'end(unwind)')
+            ex.require(s2, z3.Implies(z3.And(ULT(J, N), nd_T(ex)), s2.status[A] == DROPPED), 'the receiver\'s elements are not dropped exactly once on the out-of-bounds panic path (leak)', 'end(unwind)')
     if paths == 0:
         res.verdict, res.reason = 'inconclusive', 'vacuity: no path'
     return finish(res, ex, t0, paths, unw)
@@ -1197,7 +1203,7 @@ def from_heap(fns, src, nmax, which='try_from_vec', name=None):
         else:
             seen.add('err')
             ex.require(s2, L != N, 'LengthError although the source holds exactly N elements', 'end')
-            ex.require(s2, z3.Implies(inL, ex.stat(s2, arr) == DROPPED), 'elements of a refused source are not dropped exactly once (leak)', 'end')
+            ex.require(s2, z3.Implies(z3.And(inL, nd_T(ex)), ex.stat(s2, arr) == DROPPED), 'elements of a refused source are not dropped exactly once (leak)', 'end')
             ex.require(s2, z3.BoolVal(s2.blocks.get(blk) == 'freed'), 'the block of a refused source is never freed (leak)', 'end')
     if seen != {'ok', 'err'}:
         res.verdict, res.reason = 'inconclusive', 'vacuity: outcomes seen %s' % sorted(seen)
@@ -1234,5 +1240,5 @@ def clone_from(fns, src, nmax, name=None):
         ex.require(s2, ex.stat(s2, ex.V) != HELD, 'a clone was lost (neither stored nor dropped)', 'end(%s)' % kind)
         for arr, stt in s2.status.items():
             if arr.name.startswith('Moved'):
-                ex.require(s2, z3.Implies(inA, z3.Or(stt == UNINIT, stt == DROPPED)), 'the replaced elements of the receiver were not dropped (leak)', 'end(%s)' % kind)
+                ex.require(s2, z3.Implies(z3.And(inA, nd_T(ex)), z3.Or(stt == UNINIT, stt == DROPPED)), 'the replaced elements of the receiver were not dropped (leak)', 'end(%s)' % kind)
     return finish(res, ex, t0, paths, unw)
